@@ -15,6 +15,8 @@ import (
 
 func Int(name string) math.Int                          { panic("nd") }
 func IntN(name string, bits int) math.Int               { panic("nd") }
+func IntS(name string, bits int) math.Int               { panic("nd") }
+func DecS(name string, bits int) math.LegacyDec         { panic("nd") }
 func Dec(name string) math.LegacyDec                    { panic("nd") }
 func DecN(name string, bits int) math.LegacyDec         { panic("nd") }
 func Time(name string) time.Time                        { panic("nd") }
